@@ -81,7 +81,7 @@ def report_violation(pid, P, case, sched, outcome, info, outdir, tag, do_min=Tru
             o = run_case(c, s, P.compare)
             return (o["violation"]["class"] if o["status"] == "violation" else None), o
         try:
-            mc, ms, log = minimise(case, sched, fails, cls, P.simplify, Budget())
+            mc, ms, log = minimise(case, sched, fails, cls, P.simplify, Budget(), valid=P.valid)
             o = run_case(mc, ms, P.compare)
             if o["status"] == "violation" and o["violation"]["class"] == cls:
                 rep = make_replay(pid, mc, ms, o, P, info, True, log)
